@@ -1,6 +1,6 @@
 \* every first day of <= 3 entries over 3 foods x 5 quantities (3616) x {no second day, 2 second days}
 CONSTANTS
-  Book <- BookA
+  BookInit <- BookA
   Foods <- FoodsA
   Qtys <- QtysA
   MaxEntries = 3
